@@ -149,6 +149,23 @@ class C11Bounded(Bounded):
                 same = (sorted(norm(got)) == sorted(norm(want))) if route.startswith("load_ruleset") else (norm(got) == norm(want))      # the order of files is the loader's business
                 if not same:
                     fail("stacked:" + route, f"three filters in order {[f['title'] for f in fl]} via {route}: {got}, expected each rule narrowed by exactly the filters that target it: {want}", [list(fperm), route])
+        # a filter document in a stream with an `action: global` document: the global document is a template for detection RULES only - the
+        # filter keeps the log source it states (and so still covers the rule that came before the global document)
+        gdocs = [{"title": "l", "name": "l", "logsource": {"category": "c", "product": "linux"}, "detection": {"sel": {"a": 1}, "condition": "sel"}},
+                 {"action": "global", "logsource": {"product": "windows"}, "level": "low"},
+                 {"title": "w", "name": "w", "logsource": {"category": "c"}, "detection": {"sel": {"b": 2}, "condition": "sel"}},
+                 {"title": "F", "logsource": {"category": "c"}, "filter": {"rules": "any", "x": {"u": "adm"}, "condition": "not x"}}]
+        import yaml as _y
+        for route, load in (("from_dicts", lambda: SigmaCollection.from_dicts(copy.deepcopy(gdocs))), ("from_yaml", lambda: SigmaCollection.from_yaml("---\n".join(_y.safe_dump(d) for d in gdocs)))):
+            ev += 1
+            nontriv += 1
+            try:
+                got = b().convert(load())
+            except Exception as e:
+                got = [f"{type(e).__name__}: {e}"]
+            want = ['a=1 and not u="adm"', 'b=2 and not u="adm"']
+            if sorted(got) != sorted(want):
+                fail("global+filter", f"a stream rule / global document (product windows) / rule / filter on category c via {route}: {got}, expected both rules narrowed by the filter: {want}", [route])
         return {"evaluations": ev, "distinct_nontrivial": nontriv, "failures": fails, "failure_counts": seen,
-                "bound": f"all orders of three filters through seven routes; {len(rule_dets)} rule shapes x {len(filt_dets)} filter shapes x {len(logsources)} log source relations x {len(targets)} rule-list forms" + (" (every third)" if tier == "quick" else ""),
+                "bound": f"a filter after a global document (2 routes); all orders of three filters through seven routes; {len(rule_dets)} rule shapes x {len(filt_dets)} filter shapes x {len(logsources)} log source relations x {len(targets)} rule-list forms" + (" (every third)" if tier == "quick" else ""),
                 "rule": "distinct (rule, filter, log sources, target); non-trivial = the filter applies", "samples": samples, "exhaustive": tier != "quick"}
